@@ -70,7 +70,8 @@ impl QueuingMetricSinkBuilder {
 
         spawn_worker_in_thread(worker.clone());
 
-        QueuingMetricSink { worker, sink }
+        let _stop = Arc::new(StopOnDrop(worker.clone()));
+        QueuingMetricSink { worker, sink, _stop }
     }
 
     /// Set error handler called when the wrapped sink fails to emit a metric.
@@ -145,6 +146,22 @@ impl QueuingMetricSinkBuilder {
 pub struct QueuingMetricSink {
     worker: Arc<Worker>,
     sink: Arc<dyn MetricSink + Send + Sync + RefUnwindSafe>,
+    // Shared by all clones of this sink: stops the worker when the last
+    // clone is dropped.
+    _stop: Arc<StopOnDrop>,
+}
+
+/// Guard that sends the worker a signal to stop processing metrics once
+/// the last `QueuingMetricSink` sharing that worker has been dropped.
+///
+/// Note that this only sends the worker thread a signal to stop, it
+/// doesn't wait for it to stop.
+struct StopOnDrop(Arc<Worker>);
+
+impl Drop for StopOnDrop {
+    fn drop(&mut self) {
+        self.0.stop();
+    }
 }
 
 impl fmt::Debug for QueuingMetricSink {
@@ -276,16 +293,6 @@ impl MetricSink for QueuingMetricSink {
 
     fn stats(&self) -> SinkStats {
         self.sink.stats()
-    }
-}
-
-impl Drop for QueuingMetricSink {
-    /// Send the worker a signal to stop processing metrics.
-    ///
-    /// Note that this destructor only sends the worker thread a signal to
-    /// stop, it doesn't wait for it to stop.
-    fn drop(&mut self) {
-        self.worker.stop();
     }
 }
 
